@@ -17,7 +17,7 @@ FRESH = re.compile(rb'x[0-9]+__fresh')
 
 
 def make_case(r):
-    kind = r.choice(['general', 'fresh', 'fresh', 'vars', 'rename'])
+    kind = r.choice(['general', 'fresh', 'fresh', 'vars', 'rename', 'enum'])
     if kind == 'general':
         s = workload.small_script(r, r.choice(['small', 'medium']))
         text = workload.render_with_noise(r, s.nested(), comments=False)
@@ -44,6 +44,29 @@ def make_case(r):
                  '--replace-by-variable', '--substitute-children']
         if r.random() < 0.5:
             extra += ['--erase-node']
+    elif kind == 'enum':
+        # enumeration datatype: several default constants of one sort, the
+        # command accepts more than one of them
+        cons = r.sample(['red', 'green', 'blue', 'cyan', 'pink', 'grey',
+                         'teal', 'plum'], r.randint(3, 6))
+        n = r.randint(2, 4)
+        lines = ['(declare-datatype Color (' +
+                 ' '.join(f'({c})' for c in cons) + '))']
+        for i in range(n):
+            lines.append(f'(declare-const e{i} Color)')
+        for i in range(n):
+            lines.append(f'(assert (= e{i} e{(i + 1) % n}))')
+            lines.append(f'(assert (distinct e{i} {r.choice(cons)}))')
+        lines.append('(check-sat)')
+        text = '\n'.join(lines) + '\n'
+        # nothing may be erased (token count is kept), so only replacements
+        # of one leaf by another survive, e.g. by a default constant
+        ntok = len(workload.tokens_of(text)) - r.choice([0, 0, 4])
+        rules = realrun.simple_spec(
+            f'ntok>={ntok} has:declare-datatype &')
+        pred = rules[0]
+        extra = r.choice([[], ['--disable-all', '--constants',
+                               '--erase-node']])
     elif kind == 'vars':
         n = r.randint(4, 8)
         names = [f'{r.choice("pqrs")}{i}' for i in range(n)]
@@ -100,10 +123,12 @@ def run_case(res, base, case, r, idx):
         if run.timed_out or run.rc != 0 or run.uncaught_traceback:
             res.count('runs_failed')
             return None
-        chain = [e['bd'] for e in sorted(
-            (e for e in run.events if e['ev'] == 'write'),
-            key=lambda e: e['seq'])]
-        runs.append((v, chain, run.out_bytes))
+        ws = sorted((e for e in run.events if e['ev'] == 'write'),
+                    key=lambda e: e['seq'])
+        chain = [e['bd'] for e in ws]
+        fresh_seen = next((i for i, e in enumerate(ws)
+                           if e.get('has_fresh')), None)
+        runs.append((v, chain, run.out_bytes, fresh_seen))
     ref = runs[0]
     res.count('cases')
     res.add_set('chain_lengths', len(ref[1]))
@@ -111,16 +136,24 @@ def run_case(res, base, case, r, idx):
         res.count('cases_with_fresh_names_in_output')
     if len(ref[1]) >= 2:
         res.add_distinct(common.digest(text + repr(rules) + repr(opts)))
-    for v, chain, out in runs[1:]:
+    for v, chain, out, fresh_seen in runs[1:]:
         res.count('pairs_compared')
         if chain != ref[1] or out != ref[2]:
-            a = FRESH.sub(b'x#__fresh', ref[2] or b'')
-            b = FRESH.sub(b'x#__fresh', out or b'')
-            key = ('fresh-name-depends-on-timing'
-                   if a == b else 'nondeterministic-chain')
             # first differing write
             d = next((i for i, (x, y) in enumerate(zip(chain, ref[1]))
                       if x != y), min(len(chain), len(ref[1])))
+            a = FRESH.sub(b'x#__fresh', ref[2] or b'')
+            b = FRESH.sub(b'x#__fresh', out or b'')
+            # Once a fresh variable x<id>__fresh has been written, its id
+            # (timing dependent, known finding) may be shortened by
+            # SimplifySymbolNames (x42__fresh -> 42) and steer later
+            # acceptances; a divergence that starts at or after the first
+            # write containing a fresh name is attributed to that mechanism,
+            # any earlier divergence is not.
+            firsts = [x for x in (fresh_seen, ref[3]) if x is not None]
+            after_fresh = bool(firsts) and d >= min(firsts)
+            key = ('fresh-name-depends-on-timing'
+                   if a == b or after_fresh else 'nondeterministic-chain')
             w = dict(desc)
             w.update({'variant': v, 'reference_variant': ref[0],
                       'first_differing_write': d + 1,
@@ -155,7 +188,7 @@ def shard(args):
 
 
 def run(ctx):
-    n = 4 if ctx.tier == 'quick' else 90
+    n = 3 if ctx.tier == 'quick' else 90
     shards = [{'shard': i, 'n': n} for i in range(common.NCPU)]
     results = common.run_shards('checks.c18', shards, timeout=3400)
     common.merge_shards(ctx, results)
